@@ -4,6 +4,7 @@ CONSTANTS
   MaxKK = 1
   MaxRd = 1
   NQ = 1
+  MaxPolls = 1
   MaxLatch = 0
   FileSteps = FALSE
   QKinds = {"zero"}
